@@ -16,20 +16,20 @@ def unit():
     hs.append(Harness("encode_last_spec", ["C09", "C04"], functions=[f"{FILE}::encode_last"], timeout=300,
                       desc="encode_last for every tail of 0..=3 bytes"))
     for n in range(0, 14):
-        hs.append(Harness(f"decode_sound_{n}", ["C09", "C04"], tier="quick" if n <= 9 else "thorough", complete=False,
+        hs.append(Harness(f"decode_sound_{n}", ["C09", "C04"], tier="quick" if n in (1, 2, 3, 5, 8, 9) else "thorough", complete=False,
                           bound=f"string length == {n} (all 256^{n} contents)", timeout=900,
                           functions=[f"{FILE}::{f}" for f in ("decode", "decode_vec", "decode_inner", "validate_last_block")],
                           desc="accepted => re-encodes to itself; rejected => not a canonical encoding; decode == decode_vec; no overrun"))
     for n in range(0, 10):
-        hs.append(Harness(f"encode_roundtrip_{n}", ["C09", "C04"], tier="quick" if n <= 7 else "thorough", complete=False,
+        hs.append(Harness(f"encode_roundtrip_{n}", ["C09", "C04"], tier="quick" if n in (1, 2, 4, 6) else "thorough", complete=False,
                           bound=f"byte length == {n} (all contents)", timeout=900,
                           functions=[f"{FILE}::write_to_fmt", f"{FILE}::encode_last", f"{FILE}::decode_vec"],
                           desc="decode(b64(b)) == b and write_to_fmt(b) == b64(b)"))
     for n in (0, 1, 3, 6, 8):
-        hs.append(Harness(f"decode_vec_agrees_{n}", ["C09", "C04"], complete=False, bound=f"string length == {n}", timeout=600,
+        hs.append(Harness(f"decode_vec_agrees_{n}", ["C09", "C04"], complete=False, tier="quick" if n in (0, 3) else "thorough", bound=f"string length == {n}", timeout=600,
                           functions=[f"{FILE}::decode_vec", f"{FILE}::decode"], desc="decode_vec and decode give the same verdict and bytes"))
     for n in (2, 4, 7):
-        hs.append(Harness(f"decode_short_buffer_{n}", ["C04"], complete=False, bound=f"string length == {n}", timeout=300,
+        hs.append(Harness(f"decode_short_buffer_{n}", ["C04"], complete=False, tier="quick" if n == 4 else "thorough", bound=f"string length == {n}", timeout=300,
                           functions=[f"{FILE}::decode"], desc="decode into a too-short buffer is Err"))
     hs.append(Harness("decode_sound_7_modular", ["C09"], complete=False, bound="string length == 7", timeout=900,
                       functions=[f"{FILE}::decode_inner"], desc="whole-string statement against the block contracts only (stub_verified)"))
@@ -40,7 +40,7 @@ def unit():
         package="paseto-core",
         inject=[(FILE, "units/u2_base64/harness.rs")],
         contracts="units/u2_base64/contracts.json",
-        harness_path="base64::verif::vharness", allow_unsafe=True,
+        quick_cap=26, harness_path="base64::verif::vharness", allow_unsafe=True,
         kani_flags=["-Z", "function-contracts", "-Z", "stubbing", "--no-assertion-reach-checks"],
         harnesses=hs,
         assumptions=["bytes offered as &str are arbitrary (superset of valid UTF-8); decode only reads as_bytes()"],
